@@ -138,7 +138,12 @@ func TestC15(t *testing.T) {
 					}
 				}
 				s.Yield(0)
+				refreshedAt := int64(0)
 				if n == manualRefreshAt {
+					// Refresh may already move the cursor: when the consumed item was deleted meanwhile it lands on the
+					// successor and the next Next() stays there. The successor's "cursor moved onto it" stamp is therefore
+					// the start of the Refresh, not of that Next().
+					refreshedAt = s.Tick()
 					it.Refresh()
 					s.Yield(0)
 					if reseekAfterRefresh {
@@ -156,6 +161,9 @@ func TestC15(t *testing.T) {
 					}
 				}
 				arrive = s.Tick()
+				if refreshedAt != 0 {
+					arrive = refreshedAt
+				}
 				it.Next()
 				n++
 				if n > 200 {
